@@ -235,13 +235,17 @@ def a4_numbers(ctx):
                     ctx.finding('A4', 'number/class-%s' % c, 'the DECIMAL class of the number regex does not contain %r' % c, site='config.json parse.number')
     b = ctx.facts.one(r'^<compiler::percent::PercentItem as compiler::DataItem>::print$')
     ctx.fn(b)
-    tmpl = [x for x in walk(b.ret_expr()) if x[0] == 'const' and isinstance(x[3], str) and x[3].startswith('const b"')]
-    pieces = decode_fmt_template(tmpl[0][3]) if tmpl else None
-    if pieces == ['%', None]:
-        ctx.ok('A4', 'a percentage prints as %<number>', 'template', site=b.loc)
-    elif pieces == [None, '%']:
+    from ..assembly import printed_assembly
+    from ..absint import Unknown
+    try:
+        pieces = printed_assembly(b, {}, [(r'formatter::format_number$', 'A')])
+    except Unknown as ex:
+        pieces = 'not extractable: %s' % ex
+    if pieces == ['%', 'A']:
+        ctx.ok('A4', 'a percentage prints as %<number>', 'absint', site=b.loc)
+    elif pieces == ['A', '%']:
         ok = any(hir_accepts(h, '10%') for p, h in pfam)
-        (ctx.ok if ok else ctx.finding)('A4', 'percent/suffix-form', 'a percentage prints as <number>%', 'template') if ok else ctx.finding('A4', 'percent/suffix-form', 'a percentage prints as <number>% which no percent regex reads', site=b.loc)
+        (ctx.ok if ok else ctx.finding)('A4', 'percent/suffix-form', 'a percentage prints as <number>%', 'absint') if ok else ctx.finding('A4', 'percent/suffix-form', 'a percentage prints as <number>% which no percent regex reads', site=b.loc)
     else:
         ctx.finding('A4', 'percent/template', 'PercentItem::print assembles %s' % (pieces,), site=b.loc)
 
